@@ -61,7 +61,8 @@ def mk_replay(kind):
     def replay(args):
         from mindsdb_sql import parse_sql
         s = args['s']
-        inner = 'select %s x' % s if kind != 'number' else 'select %s x' % s
+        pos = int(args.get('pos', 1))
+        inner = ['select 1, %s', 'select %s x', 'select 1 from t where c = %s'][pos] % s
         sql = 'CREATE VIEW v (%s)' % inner
         try:
             stored = parse_sql(sql, 'mindsdb').query_str
@@ -72,10 +73,11 @@ def mk_replay(kind):
     return replay
 
 
-def r_layout(args):
+def r_layout(args, pos=1):
     import importlib
     m = importlib.import_module('harness.ch_C16')
-    ok = m.layout_leaf(args['k'], args['gap1'], args['gap2'], bool(args['nl1']), bool(args['nl2']), args['c1'], args['c2'])
+    ok = m.layout_leaf(args['k'], args['gap1'], args['gap2'], bool(args['nl1']), bool(args['nl2']), args['c1'], args['c2'], pos)
+    args = dict(args, pos=pos)
     return (not ok), {'args': args, 'lexeme': m.LEXEMES[args['k']]}, 'embedded-layout:%s' % m.LEXEMES[args['k']], \
         'tokens_to_string loses text for lexeme %s in layout %s' % (m.LEXEMES[args['k']], args)
 
@@ -84,6 +86,8 @@ def specs():
     sp = [dict(fn=k, twin=('reach' if k == 'quote_string' else None), replay=mk_replay(k))
           for k in ('quote_string', 'dquote_string', 'variable', 'system_variable', 'identifier', 'number')]
     sp.append(dict(fn='layout', twin='layout_reach', replay=r_layout))
+    sp.append(dict(fn='layout_first', twin='layout_reach', replay=lambda a: r_layout(a, 0)))
+    sp.append(dict(fn='layout_last', twin='layout_reach', replay=lambda a: r_layout(a, 2)))
     return sp
 
 
@@ -95,7 +99,7 @@ def run(tier):
     run.functions = ['mindsdb_sql.parser.utils.tokens_to_string', 'MindsDBLexer QUOTE_STRING/DQUOTE_STRING/VARIABLE/SYSTEM_VARIABLE/ID/INTEGER/FLOAT actions',
                      'MindsDBLexer.tokenize (layout leaves, native)', 'embedding grammar actions (wiring, concrete)']
     run.assumptions = ['STUB: in the symbolic content harnesses Lexeme (str subclass) is replaced by a plain holder with the same .raw, because CrossHair realises str-subclass constructor arguments; the layout leaves and the wiring check use the real class',
-                       'content harnesses use the layout "select LEXEME x" with single spaces; geometry is covered by the layout harness on 11 concrete lexemes',
+                       'content harnesses use three tokens select / LEXEME / x with the lexeme first, in the middle or last (symbolic), single spaces; geometry is covered by the layout harness on 11 concrete lexemes',
                        'multi-line string literals and comments inside the inner query other than between tokens are outside the claim']
     ch_obligations(run, HARNESS, specs(), cond_to=150 if tier == 'quick' else 900)
     try:
